@@ -55,7 +55,7 @@ def gen(rng, tier):
             pairs = rng.sample(pairs, min(400, len(pairs)))
         for a, b in pairs:
             cases.append(mk(rng, cfg_obj, cfg, rng.choice(iu.CODECS), rng.random() < 0.5, [a, b]))
-        for _ in range(150 if tier == 'quick' else 3000):
+        for _ in range(450 if tier == 'quick' else 6000):
             k = rng.choice([3, 5, 10, 20, len(bits)])
             cases.append(mk(rng, cfg_obj, cfg, rng.choice(iu.CODECS), rng.random() < 0.5, sorted(rng.sample(bits, min(k, len(bits))))))
     # PDS values that make a packed carrier exceed 999 characters are refused too
